@@ -131,8 +131,8 @@ theorem Sem.growLog_WF {s : Sem} (h : s.WF) (k : Nat) : (s.growLog k).WF := by
 @[simp] theorem Sem.increaseExponent_rm (s : Sem) (k : Nat) : (s.increaseExponent k).rm = s.rm := rfl
 @[simp] theorem Sem.increasePrecision_rm (s : Sem) (k : Nat) : (s.increasePrecision k).rm = s.rm := rfl
 
-theorem powi_sem_tr (x : Flt) (n : Nat) : (x.powi n).sem = x.sem := cast_sem_tr _ _
-theorem sqr_sem_tr (x : Flt) : x.sqr.sem = x.sem := cast_sem_tr _ _
+theorem powi_sem_tr (x : Flt) (n : Nat) : (x.powi n).sem = x.sem := castWithRm_sem _ _ _
+theorem sqr_sem_tr (x : Flt) : x.sqr.sem = x.sem := castWithRm_sem _ _ _
 
 /-! ### sem tracking of the loops -/
 
